@@ -18,7 +18,14 @@ struct Named {
     b: LTerm,
 }
 
+// Option-typed field: Some(..) and None are one compound type with one or no child
+#[compound]
+struct OptW(Option<Pair>, LTerm);
+
+const NONE_MARK: &str = "__harness_none__";
+
 pub fn build_comp(tag: &str, mut args: Vec<T>) -> T {
+    let no_args = args.is_empty();
     let mut nx = || {
         if args.is_empty() {
             panic!("harness: missing compound argument")
@@ -42,6 +49,37 @@ pub fn build_comp(tag: &str, mut args: Vec<T>) -> T {
             let a = nx();
             let b = nx();
             let p: Named<U, E> = Downcast::into_sub(Named_compound::_InnerNamed { a, b });
+            Upcast::into_super(p)
+        }
+        // (a, b): the Rust pair tuple as a compound
+        "Tup" => {
+            let a = nx();
+            let b = nx();
+            Into::<T>::into((a, b))
+        }
+        // ["comp","Opt", Pair(..)] / ["comp","Opt"]: only meaningful as the first field of OptW
+        "Opt" => {
+            if no_args {
+                LTerm::from(NONE_MARK)
+            } else {
+                nx()
+            }
+        }
+        "OptW" => {
+            let o = nx();
+            let c = nx();
+            let field: Option<Pair<U, E>> = match o.as_ref() {
+                proto_vulcan::lterm::LTermInner::Val(LValue::String(m)) if m == NONE_MARK => None,
+                proto_vulcan::lterm::LTermInner::Compound(obj) => {
+                    let kids: Vec<T> = obj.children().map(|k| k.as_term().expect("harness: Opt payload").clone()).collect();
+                    if obj.type_name() != "Pair" || kids.len() != 2 {
+                        panic!("harness: Opt payload must be a Pair")
+                    }
+                    Some(Downcast::into_sub(Pair_compound::_InnerPair(kids[0].clone(), kids[1].clone())))
+                }
+                _ => panic!("harness: Opt payload must be a Pair"),
+            };
+            let p: OptW<U, E> = Downcast::into_sub(OptW_compound::_InnerOptW(field, c));
             Upcast::into_super(p)
         }
         _ => panic!("harness: unknown compound {}", tag),
